@@ -258,8 +258,18 @@ def rule_c(ck, R):
                     continue
                 a = L(addr_of(p.ret))
                 rd = [e for e in p.effects if e.kind == 'icall' and e.name.endswith('read')]
-                eptr = rd[0].args[0][1]
-                A, S = L(('f', eptr, 'address')), L(strip_cast(rd[0].args[3]))
+                if rd:
+                    eptr, sz = rd[0].args[0][1], strip_cast(rd[0].args[3])
+                else:
+                    # a path that did not fetch the old content (the block replaces the register as a whole): the
+                    # register is the one whose address the walk's tests speak about, its size the table entry of its type
+                    ads = [x for c in p.cond_terms() for x in sym.subterms(c) if x[0] == 'f' and x[2] == 'address' and x[1] != ('v', 'rv')]
+                    szs = [x for c in p.cond_terms() for x in sym.subterms(c) if x[0] == 'i' and 'rds_size' in fmt(x)]
+                    if not ads or not szs:
+                        bad = bad or 'a failure is reported on a path on which the register concerned cannot be identified'
+                        continue
+                    eptr, sz = ads[-1][1], szs[-1]
+                A, S = L(('f', eptr, 'address')), L(sz)
                 ok = (eng.entails(facts, L(ADDR) - a) and eng.entails(facts, a + 1 - L(ADDR) - L(N)) and
                       eng.entails(facts, A - a) and eng.entails(facts, a + 1 - A - S))
                 first = eng.entails(facts, a - L(ADDR)) or eng.entails(facts, a - A)
